@@ -972,6 +972,362 @@ example : readBuildId (Blob.ofList (ser ⟨0x1040, [⟨1, [0, 0, 0, 0, 3, 0, 0, 
   · intro n hn; simp at hn; rcases hn with rfl | rfl <;> (constructor <;> decide)
   · decide
 
+/-! ### round trip: the SONAME -/
+
+def serHeaderG (entry phnum : Nat) : Bytes :=
+  identBytes ++ (le 2 3 ++ (le 2 62 ++ (le 4 1 ++ (le 8 entry ++ (le 8 64 ++ (le 8 0 ++ (le 4 0 ++ (le 2 64 ++
+    (le 2 56 ++ (le 2 phnum ++ (le 2 64 ++ (le 2 0 ++ le 2 0))))))))))))
+
+theorem serHeaderG_length (entry phnum : Nat) : (serHeaderG entry phnum).length = 64 := by
+  simp [serHeaderG, identBytes]
+
+theorem parseHeader_serG (entry phnum : Nat) (rest : Bytes) (he : entry < 256 ^ 8) (hp : phnum < 256 ^ 2) :
+    parseHeader (Blob.ofList (serHeaderG entry phnum ++ rest)) = .ok ⟨⟨true, false⟩, 64, 0, 56, phnum, 64, 0, 0⟩ := by
+  have hlen : (serHeaderG entry phnum ++ rest).length = 64 + rest.length := by simp [serHeaderG_length]
+  have hf : fieldAt (serHeaderG entry phnum ++ rest) 16 2 = 3 ∧ fieldAt (serHeaderG entry phnum ++ rest) 18 2 = 62 ∧
+      fieldAt (serHeaderG entry phnum ++ rest) 20 4 = 1 ∧ fieldAt (serHeaderG entry phnum ++ rest) 24 8 = entry ∧
+      fieldAt (serHeaderG entry phnum ++ rest) 32 8 = 64 ∧ fieldAt (serHeaderG entry phnum ++ rest) 40 8 = 0 ∧
+      fieldAt (serHeaderG entry phnum ++ rest) 48 4 = 0 ∧ fieldAt (serHeaderG entry phnum ++ rest) 52 2 = 64 ∧
+      fieldAt (serHeaderG entry phnum ++ rest) 54 2 = 56 ∧ fieldAt (serHeaderG entry phnum ++ rest) 56 2 = phnum ∧
+      fieldAt (serHeaderG entry phnum ++ rest) 58 2 = 64 ∧ fieldAt (serHeaderG entry phnum ++ rest) 60 2 = 0 ∧
+      fieldAt (serHeaderG entry phnum ++ rest) 62 2 = 0 := by
+    refine ⟨?_, ?_, ?_, ?_, ?_, ?_, ?_, ?_, ?_, ?_, ?_, ?_, ?_⟩ <;>
+      (unfold serHeaderG; simp only [List.append_assoc]; walk_field)
+  obtain ⟨f1, f2, f3, f4, f5, f6, f7, f8, f9, f10, f11, f12, f13⟩ := hf
+  have hm : memRead (Blob.ofList (serHeaderG entry phnum ++ rest)) 0 64 = .ok ⟨0, 64⟩ := by
+    unfold memRead
+    simp [Blob.ofList, hlen]
+  have rd : ∀ off k, off + k ≤ 64 →
+      rdInt (Blob.ofList (serHeaderG entry phnum ++ rest)) false ⟨0, 64⟩ off k =
+        some (fieldAt (serHeaderG entry phnum ++ rest) off k) := by
+    intro off k h
+    have := rdInt_ofList (serHeaderG entry phnum ++ rest) ⟨0, 64⟩ off k h (by simp [hlen])
+    simpa using this
+  have hg4 : (Blob.ofList (serHeaderG entry phnum ++ rest)).get 4 = some 2 := by
+    simp [Blob.ofList, serHeaderG, identBytes]
+  have hg5 : (Blob.ofList (serHeaderG entry phnum ++ rest)).get 5 = some 1 := by
+    simp [Blob.ofList, serHeaderG, identBytes]
+  have hmg : (Blob.ofList (serHeaderG entry phnum ++ rest)).slice 0 4 = [0x7f, 0x45, 0x4c, 0x46] := by
+    rw [slice_ofList _ _ _ (by rw [hlen]; omega)]
+    simp [sliceAt, serHeaderG, identBytes]
+  unfold parseHeader
+  rw [hm]
+  simp only
+  unfold parseHeaderFields
+  simp only [Nat.zero_add, hmg, hg4, hg5, Option.getD_some]
+  simp [rd, f1, f2, f3, f4, f5, f6, f7, f8, f9, f10, f11, f12, f13, orErr]
+
+theorem findNul_ser (l pre name post : Bytes) (hl : l = pre ++ (name ++ (0 :: post)))
+    (hn : ∀ x ∈ name, x ≠ 0) (fuel : Nat) (hf : name.length + 1 ≤ fuel) :
+    findNul (Blob.ofList l) fuel pre.length = some (pre.length + name.length) := by
+  induction name generalizing pre fuel with
+  | nil =>
+    cases fuel with
+    | zero => omega
+    | succ fuel =>
+      have hg : (Blob.ofList l).get pre.length = some 0 := by
+        simp [Blob.ofList, hl]
+      simp [findNul, hg]
+  | cons x xs ih =>
+    cases fuel with
+    | zero => omega
+    | succ fuel =>
+      have hg : (Blob.ofList l).get pre.length = some x := by
+        simp [Blob.ofList, hl]
+      have hx : x ≠ 0 := hn x (List.mem_cons_self ..)
+      have hxb : (x == 0) = false := by simpa using hx
+      unfold findNul
+      simp only [hg, Option.getD_some, hxb, Bool.false_eq_true, ↓reduceIte]
+      have := ih (pre ++ [x]) (by rw [hl]; simp) (fun y hy => hn y (List.mem_cons_of_mem _ hy)) fuel
+        (by simp at hf ⊢; omega)
+      simp only [List.length_append, List.length_cons, List.length_nil] at this
+      rw [this]
+      congr 1
+      simp; omega
+
+theorem pushRange_one (b : Blob) (acc : Array UInt8) (i : Nat) :
+    pushRange b acc i 1 = acc.push ((b.get i).getD 0) := by
+  simp [pushRange]
+
+theorem utf8Lossy_ascii (b : Blob) (n i fuel : Nat) (acc : Array UInt8) (hf : n + 1 ≤ fuel)
+    (h : ∀ x ∈ b.slice i n, x < 0x80) :
+    (utf8Lossy b (i + n) fuel i acc).toList = acc.toList ++ b.slice i n := by
+  induction n generalizing i fuel acc with
+  | zero =>
+    cases fuel with
+    | zero => omega
+    | succ fuel => simp [utf8Lossy, slice_zero]
+  | succ n ih =>
+    cases fuel with
+    | zero => omega
+    | succ fuel =>
+      rw [slice_succ] at h ⊢
+      have hx : (b.get i).getD 0 < 0x80 := h _ (List.mem_cons_self ..)
+      unfold utf8Lossy
+      have hlt : ¬ (i ≥ i + (n + 1)) := by omega
+      simp only [hlt, ↓reduceIte]
+      have hs : safeGet b (i + (n + 1)) i = (b.get i).getD 0 := by simp [safeGet]
+      have hstep : utf8Step (safeGet b (i + (n + 1))) i = (i + 1, true) := by
+        unfold utf8Step; simp only [hs, hx, ↓reduceIte]
+      rw [hstep]
+      simp only [Nat.add_sub_cancel_left, pushRange_one]
+      have := ih (i + 1) fuel (acc.push ((b.get i).getD 0)) (by omega)
+        (fun x hx' => h x (List.mem_cons_of_mem _ hx'))
+      rw [show i + 1 + n = i + (n + 1) by omega] at this
+      rw [this]
+      simp
+
+def serDynEntry (e : Nat × Nat) : Bytes := le 8 e.1 ++ le 8 e.2
+def serDyn (es : List (Nat × Nat)) : Bytes := es.flatMap serDynEntry
+
+theorem serDynEntry_length (e : Nat × Nat) : (serDynEntry e).length = 16 := by simp [serDynEntry]
+theorem serDyn_length (es : List (Nat × Nat)) : (serDyn es).length = 16 * es.length := by
+  induction es with
+  | nil => simp [serDyn]
+  | cons e r ih => simp only [serDyn, List.flatMap_cons, List.length_append, serDynEntry_length, List.length_cons] at ih ⊢; omega
+theorem serDyn_append (a b : List (Nat × Nat)) : serDyn (a ++ b) = serDyn a ++ serDyn b := by simp [serDyn]
+theorem serDyn_cons (e : Nat × Nat) (r : List (Nat × Nat)) : serDyn (e :: r) = serDynEntry e ++ serDyn r := by simp [serDyn]
+
+def ctx64 : Ctx := ⟨true, false⟩
+
+theorem dynAt_ser (l pre post : Bytes) (e : Nat × Nat) (wbase wlen off : Nat)
+    (hl : l = pre ++ (serDynEntry e ++ post)) (hb : wbase + off = pre.length) (h1 : off + 16 ≤ wlen)
+    (hfit : wbase + wlen ≤ l.length) (he1 : e.1 < 256 ^ 8) (he2 : e.2 < 256 ^ 8) :
+    dynAt (Blob.ofList l) ctx64 ⟨wbase, wlen⟩ off = some e := by
+  unfold dynAt
+  simp only [ctx64, ↓reduceIte]
+  rw [rdInt_ofList l ⟨wbase, wlen⟩ off 8 (by simp only; omega) (by simp only; omega),
+    rdInt_ofList l ⟨wbase, wlen⟩ (off + 8) 8 (by simp only; omega) (by simp only; omega)]
+  simp only [Option.bind_eq_bind, Option.bind_some]
+  have f1 : fieldAt l (wbase + off) 8 = e.1 := by
+    rw [hb, hl, show pre.length = pre.length + 0 by omega, fieldAt_pre]
+    unfold serDynEntry; simp only [List.append_assoc]; walk_field
+  have f2 : fieldAt l (wbase + (off + 8)) 8 = e.2 := by
+    rw [show wbase + (off + 8) = pre.length + 8 by omega, hl, fieldAt_pre]
+    unfold serDynEntry; simp only [List.append_assoc]; walk_field
+  rw [f1, f2]
+
+theorem dynEntries_ser (l pre0 post : Bytes) (done rest : List (Nat × Nat))
+    (hl : l = pre0 ++ (serDyn (done ++ rest) ++ (serDynEntry (0, 0) ++ post)))
+    (hwf : ∀ e ∈ rest, e.1 ≠ 0 ∧ e.1 < 256 ^ 8 ∧ e.2 < 256 ^ 8) (fuel : Nat) (hfuel : rest.length + 1 ≤ fuel) :
+    dynEntries (Blob.ofList l) ctx64 ⟨pre0.length, 16 * ((done ++ rest).length + 1)⟩ fuel (16 * done.length) = .ok rest := by
+  induction rest generalizing done fuel with
+  | nil =>
+    have hlen : l.length = pre0.length + 16 * (done ++ []).length + 16 + post.length := by
+      rw [hl]; simp only [List.length_append, serDyn_length, serDynEntry_length]; omega
+    cases fuel with
+    | zero => omega
+    | succ fuel =>
+      unfold dynEntries
+      have := dynAt_ser l (pre0 ++ serDyn done) post (0, 0) pre0.length (16 * ((done ++ []).length + 1)) (16 * done.length)
+        (by rw [hl]; simp only [List.append_nil, List.append_assoc]) (by simp [serDyn_length])
+        (by simp only [List.append_nil]; omega) (by rw [hlen]; simp only [List.append_nil]; omega) (by decide) (by decide)
+      rw [this]
+      simp
+  | cons e r ih =>
+    have hlen : l.length = pre0.length + 16 * (done ++ e :: r).length + 16 + post.length := by
+      rw [hl]; simp only [List.length_append, serDyn_length, serDynEntry_length]; omega
+    cases fuel with
+    | zero => omega
+    | succ fuel =>
+      unfold dynEntries
+      have hwe := hwf e (List.mem_cons_self ..)
+      have := dynAt_ser l (pre0 ++ serDyn done) (serDyn r ++ (serDynEntry (0, 0) ++ post)) e pre0.length
+        (16 * ((done ++ e :: r).length + 1)) (16 * done.length)
+        (by rw [hl, serDyn_append, serDyn_cons]; simp only [List.append_assoc]) (by simp [serDyn_length])
+        (by simp only [List.length_append, List.length_cons]; omega)
+        (by rw [hlen]; simp only [List.length_append, List.length_cons]; omega)
+        hwe.2.1 hwe.2.2
+      rw [this]
+      have hne : (e.1 == 0) = false := by simpa using hwe.1
+      simp only [hne, Bool.false_eq_true, ↓reduceIte]
+      have ih' := ih (done ++ [e]) (by rw [hl]; simp) (fun x hx => hwf x (List.mem_cons_of_mem _ hx))
+        fuel (by simp at hfuel ⊢; omega)
+      rw [show done ++ [e] ++ r = done ++ e :: r by simp] at ih'
+      have hoff : 16 * (done ++ [e]).length = 16 * done.length + dynSize ctx64 := by
+        simp [dynSize, ctx64]; omega
+      rw [hoff] at ih'
+      rw [ih']
+
+structure SoElf where
+  entry : Nat
+  before : List (Nat × Nat)     -- dynamic entries in front of the three that matter (any non-null tags)
+  strPre : Bytes                -- the string table before the name
+  name : Bytes
+  strPost : Bytes
+  tail : Bytes
+
+namespace SoElf
+def strtab (e : SoElf) : Bytes := e.strPre ++ (e.name ++ (0 :: e.strPost))
+def dynLen (e : SoElf) : Nat := 16 * (e.before.length + 3 + 1)
+def strOff (e : SoElf) : Nat := 176 + e.dynLen
+def entries (e : SoElf) : List (Nat × Nat) :=
+  e.before ++ [(5, e.strOff), (10, e.strtab.length), (14, e.strPre.length)]
+def total (e : SoElf) : Nat := e.strOff + e.strtab.length + e.tail.length
+end SoElf
+
+def phLoad (e : SoElf) : Bytes :=
+  le 4 1 ++ (le 4 5 ++ (le 8 0 ++ (le 8 0 ++ (le 8 0 ++ (le 8 e.total ++ (le 8 e.total ++ le 8 0x1000))))))
+def phDyn (e : SoElf) : Bytes :=
+  le 4 2 ++ (le 4 6 ++ (le 8 176 ++ (le 8 176 ++ (le 8 176 ++ (le 8 e.dynLen ++ (le 8 e.dynLen ++ le 8 8))))))
+
+def ser2 (e : SoElf) : Bytes :=
+  serHeaderG e.entry 2 ++ (phLoad e ++ (phDyn e ++ (serDyn e.entries ++ (serDynEntry (0, 0) ++ (e.strtab ++ e.tail)))))
+
+theorem phLoad_length (e : SoElf) : (phLoad e).length = 56 := by simp [phLoad]
+theorem phDyn_length (e : SoElf) : (phDyn e).length = 56 := by simp [phDyn]
+theorem entries_length (e : SoElf) : e.entries.length = e.before.length + 3 := by simp [SoElf.entries]
+theorem ser2_length (e : SoElf) : (ser2 e).length = e.total := by
+  simp only [ser2, List.length_append, serHeaderG_length, phLoad_length, phDyn_length, serDyn_length, serDynEntry_length,
+    entries_length, SoElf.total, SoElf.strOff, SoElf.dynLen]
+  omega
+
+def loadPhdr (e : SoElf) : Phdr := ⟨1, 5, 0, 0, 0, e.total, e.total, 0x1000⟩
+def dynPhdr (e : SoElf) : Phdr := ⟨2, 6, 176, 176, 176, e.dynLen, e.dynLen, 8⟩
+
+macro "walk_ph" : tactic => `(tactic|
+  (unfold ser2
+   rw [fieldAt_skip _ _ _ _ (by rw [serHeaderG_length]; decide)]
+   simp only [serHeaderG_length, Nat.reduceSub]
+   unfold phLoad phDyn
+   simp only [List.append_assoc]
+   walk_field))
+
+theorem ph_fields (e : SoElf) (ht : e.total < 256 ^ 8) (hd : e.dynLen < 256 ^ 8) :
+    (fieldAt (ser2 e) 64 4 = 1 ∧ fieldAt (ser2 e) 68 4 = 5 ∧ fieldAt (ser2 e) 72 8 = 0 ∧ fieldAt (ser2 e) 80 8 = 0 ∧
+     fieldAt (ser2 e) 88 8 = 0 ∧ fieldAt (ser2 e) 96 8 = e.total ∧ fieldAt (ser2 e) 104 8 = e.total ∧
+     fieldAt (ser2 e) 112 8 = 0x1000) ∧
+    (fieldAt (ser2 e) 120 4 = 2 ∧ fieldAt (ser2 e) 124 4 = 6 ∧ fieldAt (ser2 e) 128 8 = 176 ∧ fieldAt (ser2 e) 136 8 = 176 ∧
+     fieldAt (ser2 e) 144 8 = 176 ∧ fieldAt (ser2 e) 152 8 = e.dynLen ∧ fieldAt (ser2 e) 160 8 = e.dynLen ∧
+     fieldAt (ser2 e) 168 8 = 8) := by
+  refine ⟨⟨?_, ?_, ?_, ?_, ?_, ?_, ?_, ?_⟩, ⟨?_, ?_, ?_, ?_, ?_, ?_, ?_, ?_⟩⟩ <;> walk_ph
+
+theorem readProgramHeaders_ser2 (e : SoElf) (ht : e.total < 256 ^ 8) :
+    readProgramHeaders (Blob.ofList (ser2 e)) ⟨⟨true, false⟩, 64, 0, 56, 2, 64, 0, 0⟩ = .ok #[loadPhdr e, dynPhdr e] := by
+  have hlen := ser2_length e
+  have hdl : e.dynLen < 256 ^ 8 := by
+    have : e.dynLen ≤ e.total := by simp [SoElf.total, SoElf.strOff]; omega
+    omega
+  obtain ⟨⟨a1, a2, a3, a4, a5, a6, a7, a8⟩, ⟨b1, b2, b3, b4, b5, b6, b7, b8⟩⟩ := ph_fields e ht hdl
+  have htot : 176 ≤ e.total := by simp [SoElf.total, SoElf.strOff]; omega
+  have hm : memRead (Blob.ofList (ser2 e)) 64 112 = .ok ⟨64, 112⟩ := by
+    unfold memRead
+    simp [Blob.ofList, hlen]; omega
+  have rd : ∀ off k, off + k ≤ 112 →
+      rdInt (Blob.ofList (ser2 e)) false ⟨64, 112⟩ off k = some (fieldAt (ser2 e) (64 + off) k) := by
+    intro off k h
+    exact rdInt_ofList (ser2 e) ⟨64, 112⟩ off k h (by simp [hlen]; omega)
+  unfold readProgramHeaders
+  simp only [bind, Except.bind, hm, show (56 : Nat) * 2 = 112 by decide]
+  simp [parsePhdrs, phdrSize, parseMany, parsePhdr, rd, a1, a2, a3, a4, a5, a6, a7, a8, b1, b2, b3, b4, b5, b6, b7, b8,
+    loadPhdr, dynPhdr]
+
+theorem lastTag_entries (before : List (Nat × Nat)) (a b c : Nat) :
+    lastTag 5 (before ++ [(5, a), (10, b), (14, c)]) = some a ∧
+    lastTag 10 (before ++ [(5, a), (10, b), (14, c)]) = some b ∧
+    lastTag 14 (before ++ [(5, a), (10, b), (14, c)]) = some c := by
+  simp [lastTag, List.find?_cons]
+
+/-- **C14 (round trip, SONAME).** For every 64-bit little-endian image with a PT_LOAD and a PT_DYNAMIC
+    segment whose table has any non-null entries followed by DT_STRTAB, DT_STRSZ, DT_SONAME and DT_NULL,
+    any string table around an ASCII name, and anything at all after it, the reader returns that name. -/
+theorem C14_roundtrip_soname (e : SoElf) (he : e.entry < 256 ^ 8) (htot : e.total < 2 ^ 64)
+    (hbef : ∀ x ∈ e.before, x.1 ≠ 0 ∧ x.1 < 256 ^ 8 ∧ x.2 < 256 ^ 8)
+    (hname : ∀ x ∈ e.name, x ≠ 0 ∧ x < 0x80) :
+    readSoName (Blob.ofList (ser2 e)) = .ok e.name := by
+  have h256 : (256 : Nat) ^ 8 = 2 ^ 64 := by decide
+  have hlen := ser2_length e
+  have hstr : e.strtab.length = e.strPre.length + e.name.length + 1 + e.strPost.length := by
+    simp [SoElf.strtab]; omega
+  have htotal : e.total = e.strOff + e.strtab.length + e.tail.length := rfl
+  have hso : e.strOff = 176 + e.dynLen := rfl
+  have hdl : e.dynLen = 16 * (e.entries.length + 1) := by simp [SoElf.dynLen, entries_length]
+  -- the pieces of the image
+  have hsplit : ser2 e = (serHeaderG e.entry 2 ++ (phLoad e ++ phDyn e)) ++
+      (serDyn ([] ++ e.entries) ++ (serDynEntry (0, 0) ++ (e.strtab ++ e.tail))) := by
+    simp [ser2]
+  have hpre : (serHeaderG e.entry 2 ++ (phLoad e ++ phDyn e)).length = 176 := by
+    simp [serHeaderG_length, phLoad_length, phDyn_length]
+  -- header, program headers
+  have hh : parseHeader (Blob.ofList (ser2 e)) = .ok ⟨⟨true, false⟩, 64, 0, 56, 2, 64, 0, 0⟩ :=
+    parseHeader_serG e.entry 2 _ he (by decide)
+  have hp := readProgramHeaders_ser2 e (by omega)
+  have hd : (#[loadPhdr e, dynPhdr e] : Array Phdr).toList.find? (fun p => p.ptype == 2) = some (dynPhdr e) := by
+    simp [loadPhdr, dynPhdr]
+  have hw : memRead (Blob.ofList (ser2 e)) (dynPhdr e).offset (dynPhdr e).filesz = .ok ⟨176, e.dynLen⟩ := by
+    unfold memRead
+    simp only [Blob.ofList, Bool.false_eq_true, ↓reduceIte, dynPhdr]
+    have h1 : ¬ (176 + e.dynLen ≥ 2 ^ 64) := by omega
+    have h2 : 176 + e.dynLen ≤ (ser2 e).length := by omega
+    simp [h1, h2]
+  -- the dynamic table
+  have hwfE : ∀ x ∈ e.entries, x.1 ≠ 0 ∧ x.1 < 256 ^ 8 ∧ x.2 < 256 ^ 8 := by
+    intro x hx
+    simp only [SoElf.entries, List.mem_append, List.mem_cons, List.mem_nil_iff, or_false] at hx
+    rcases hx with hx | rfl | rfl | rfl
+    · exact hbef x hx
+    · exact ⟨by show (5 : Nat) ≠ 0; decide, by show (5 : Nat) < 256 ^ 8; decide, by show e.strOff < _; omega⟩
+    · exact ⟨by show (10 : Nat) ≠ 0; decide, by show (10 : Nat) < 256 ^ 8; decide, by show e.strtab.length < _; omega⟩
+    · exact ⟨by show (14 : Nat) ≠ 0; decide, by show (14 : Nat) < 256 ^ 8; decide, by show e.strPre.length < _; omega⟩
+  have hde := dynEntries_ser (ser2 e) (serHeaderG e.entry 2 ++ (phLoad e ++ phDyn e)) (e.strtab ++ e.tail) [] e.entries
+    hsplit hwfE (e.dynLen / dynSize ctx64 + 2) (by simp [hdl, dynSize, ctx64])
+  simp only [List.nil_append, List.length_nil, Nat.mul_zero, hpre, ← hdl] at hde
+  obtain ⟨t1, t2, t3⟩ := lastTag_entries e.before e.strOff e.strtab.length e.strPre.length
+  -- the name
+  have hloc : locateAddressSlice (#[loadPhdr e, dynPhdr e] : Array Phdr).toList e.strOff = e.strOff := by
+    unfold locateAddressSlice
+    have h1 : e.strOff < e.total := by omega
+    have h2 : e.strOff < 18446744073709551616 := by omega
+    simp [loadPhdr, dynPhdr, h1, h2]
+  have hv : readNameFromStrtab (Blob.ofList (ser2 e)) e.strOff e.strtab.length e.strPre.length = .ok e.name := by
+    unfold readNameFromStrtab
+    have h1 : ¬ (e.strOff + e.strPre.length ≥ 2 ^ 64) := by omega
+    have hm : memRead (Blob.ofList (ser2 e)) (e.strOff + e.strPre.length) (e.strtab.length - e.strPre.length) =
+        .ok ⟨e.strOff + e.strPre.length, e.strtab.length - e.strPre.length⟩ := by
+      unfold memRead
+      simp only [Blob.ofList, Bool.false_eq_true, ↓reduceIte]
+      have a1 : ¬ (e.strOff + e.strPre.length + (e.strtab.length - e.strPre.length) ≥ 2 ^ 64) := by omega
+      have a2 : e.strOff + e.strPre.length + (e.strtab.length - e.strPre.length) ≤ (ser2 e).length := by omega
+      simp [a1, a2]
+    simp only [h1, ↓reduceIte, bind, Except.bind, hm]
+    -- split the image around the name
+    have hsp : ser2 e = (serHeaderG e.entry 2 ++ (phLoad e ++ (phDyn e ++ (serDyn e.entries ++ (serDynEntry (0, 0) ++ e.strPre))))) ++
+        (e.name ++ (0 :: (e.strPost ++ e.tail))) := by
+      simp [ser2, SoElf.strtab]
+    have hpl : (serHeaderG e.entry 2 ++ (phLoad e ++ (phDyn e ++ (serDyn e.entries ++ (serDynEntry (0, 0) ++ e.strPre))))).length =
+        e.strOff + e.strPre.length := by
+      simp only [List.length_append, serHeaderG_length, phLoad_length, phDyn_length, serDyn_length, serDynEntry_length, hso, hdl]
+      omega
+    have hnul := findNul_ser (ser2 e) _ e.name (e.strPost ++ e.tail) hsp (fun x hx => (hname x hx).1)
+      (e.strtab.length - e.strPre.length) (by omega)
+    rw [hpl] at hnul
+    simp only [hnul]
+    have hsl : (Blob.ofList (ser2 e)).slice (e.strOff + e.strPre.length) e.name.length = e.name := by
+      rw [slice_ofList _ _ _ (by omega), ← hpl]
+      have hp0 := sliceAt_pre (serHeaderG e.entry 2 ++ (phLoad e ++ (phDyn e ++ (serDyn e.entries ++ (serDynEntry (0, 0) ++ e.strPre)))))
+        (e.name ++ (0 :: (e.strPost ++ e.tail))) 0 e.name.length
+      simp only [Nat.add_zero] at hp0
+      rw [hsp, hp0]
+      exact sliceAt_head _ _ _ rfl
+    have := utf8Lossy_ascii (Blob.ofList (ser2 e)) e.name.length (e.strOff + e.strPre.length)
+      (e.strOff + e.strPre.length + e.name.length - (e.strOff + e.strPre.length) + 1) #[] (by omega)
+      (by rw [hsl]; intro x hx; exact (hname x hx).2)
+    rw [this, hsl]
+    simp only [Array.toList_empty, List.nil_append]
+    rfl
+  rw [← hloc] at hv
+  exact C14_soname_is_dt_soname (Blob.ofList (ser2 e)) _ _ (dynPhdr e) ⟨176, e.dynLen⟩ e.entries e.strOff e.strtab.length
+    e.strPre.length rfl hh hp hd hw hde t1 t2 t3 (by omega) e.name hv
+
+-- non-vacuity: DT_NEEDED and DT_INIT entries first, a string table with another name in front
+example : readSoName (Blob.ofList (ser2 ⟨0x1040, [(1, 1), (12, 0x1000)], [0, 108, 105, 98, 99, 46, 115, 111, 46, 54, 0], [108, 105, 98, 102, 111, 111, 46, 115, 111, 46, 49],
+    [71, 76, 73, 66, 67, 95, 50, 46, 50, 46, 53, 0], [0xde, 0xad, 0xbe, 0xef]⟩)) = .ok [108, 105, 98, 102, 111, 111, 46, 115, 111, 46, 49] := by
+  apply C14_roundtrip_soname
+  · decide
+  · decide
+  · intro x hx; simp at hx; rcases hx with rfl | rfl <;> (refine ⟨?_, ?_, ?_⟩ <;> decide)
+  · intro x hx; simp at hx; rcases hx with rfl | rfl | rfl | rfl | rfl | rfl | rfl | rfl | rfl | rfl | rfl <;> (constructor <;> decide)
+
 /-! ### the hypotheses are satisfiable: the small ELF of the crate's own unit tests -/
 
 def tinyElf : Bytes := [
